@@ -335,7 +335,17 @@ def sym_search(pattern, subject, mode="search"):
         if r is not None:
             return SymMatch(subject, units, r[2], (r[0], r[1]), pattern)
         if mode == "search" and st < len(units) and units[st][0] == "a" and items and items[0] != (C.AT, C.AT_BEGINNING):
-            raise Inapplicable("regex search would have to start inside a symbolic atom")
+            # could a match start at a later character of this atom?  Not if the pattern's first
+            # item rejects every character the atom can hold.
+            first = items[0]
+            ok = False
+            if first[0] in _SINGLE and units[st][1].lo() >= 0:
+                try:
+                    ok = _unit_match(first, units[st], pattern.flags) is False
+                except Inapplicable:
+                    ok = False
+            if not ok:
+                raise Inapplicable("regex search would have to start inside a symbolic atom")
         if items and items[0] == (C.AT, C.AT_BEGINNING):
             break
     return None
@@ -358,4 +368,9 @@ def install(interp):
 def pattern_method(pat, name, args, kwargs):
     if name in ("search", "match", "fullmatch") and args and isinstance(args[0], SStr):
         return sym_search(pat, args[0], name)
+    if name == "sub" and len(args) >= 2 and isinstance(args[1], SStr):
+        # only the trivial case: the pattern definitely matches nowhere -> the subject is returned unchanged
+        if sym_search(pat, args[1], "search") is None:
+            return args[1]
+        raise Inapplicable("re.Pattern.sub with a match on a structured string")
     raise Inapplicable(f"re.Pattern.{name} on a structured string")
